@@ -428,7 +428,13 @@ def project_tetra_to_origin(tetra):
             if ba * da_ba + bd * ba_aa - bb * da_aa <= 0:
                 if da_aa <= 0:
                     if ba * ba_ca + bb * ca_aa - bc * ba_aa <= 0:
-                        ray, simplex_len = region_abc(tetra, a, b, c, a_cross_b)
+                        if ca * ba_ca + cb * ca_aa - cc * ba_aa <= 0:
+                            if ca * ca_da + cc * da_aa - dc * ca_aa <= 0:
+                                ray, simplex_len = region_acd(tetra, a, c, d, a_cross_c)
+                            else:
+                                ray, simplex_len = region_ac(tetra, a, c, ca_aa)
+                        else:
+                            ray, simplex_len = region_abc(tetra, a, b, c, a_cross_b)
                     else:
                         ray, simplex_len = region_ab(tetra, a, b, ba_aa)
                 else:
@@ -461,13 +467,16 @@ def project_tetra_to_origin(tetra):
                 if ba * ba_ca + bb * ca_aa - bc * ba_aa <= 0:
                     if ca * ba_ca + cb * ca_aa - cc * ba_aa <= 0:
                         if ca * ca_da + cc * da_aa - dc * ca_aa <= 0:
-                            ray, simplex_len = region_acd(tetra, a, c, d, a_cross_c)
+                            if da * ca_da + dc * da_aa - dd * ca_aa <= 0:
+                                ray, simplex_len = region_ad(tetra, a, d, da_aa)
+                            else:
+                                ray, simplex_len = region_acd(tetra, a, c, d, a_cross_c)
                         else:
                             ray, simplex_len = region_ac(tetra, a, c, ca_aa)
                     else:
                         ray, simplex_len = region_abc(tetra, a, b, c, a_cross_b)
                 else:
-                    ray, simplex_len = region_ad(tetra, a, d, da_aa)
+                    ray, simplex_len = region_ab(tetra, a, b, ba_aa)
             else:
                 if d.dot(a_cross_c) <= 0:
                     if ca * ca_da + cc * da_aa - dc * ca_aa <= 0:
@@ -506,7 +515,7 @@ def project_tetra_to_origin(tetra):
                         else:
                             ray, simplex_len = region_ac(tetra, a, c, ca_aa)
                     else:
-                        if c.dot(a_cross_b):
+                        if c.dot(a_cross_b) <= 0:
                             ray, simplex_len = region_abc(tetra, a, b, c, a_cross_b)
                         else:
                             ray, simplex_len = region_acd(tetra, a, c, d, a_cross_c)
